@@ -208,6 +208,7 @@ struct Dump {
     bool withLoc = false;
     long nEvents = 0, nChars = 0, nErr = 0, nFatal = 0, nWarn = 0;
     long throwAt = -1;             // throw from the k-th callback (C15/C18)
+    void clearAll() { out.clear(); pendKind.clear(); pendText.clear(); nEvents = nChars = nErr = nFatal = nWarn = 0; }
     void tick() {
         nEvents++;
         if (throwAt >= 0 && nEvents == throwAt) throw SAXException(X("xv-handler-abort").c());
@@ -746,12 +747,17 @@ static void runParse(const Req& r, ParseOut& po, XMLGrammarPool* pool = 0, Memor
     struct SrcJan { InputSource* p; ~SrcJan() { delete p; } } srcJan = { srcOwned };
     if (f.has("forceenc")) src.setEncoding(X(f.s("forceenc")).c());
     bool useRes = !st.ents.empty() || st.total || f.b("resolver", false);
+    // optional warm-up: the SAME parser object first parses `pre` (result discarded), so that state left over from an earlier document shows in this one
+    const std::string preDoc = get(r, "pre");
+    MemBufInputSource presrc((const XMLByte*)preDoc.data(), preDoc.size(), "mem:/pre.xml", false);
+#define XV_PRE(CALL) if (r.count("pre")) { long keep = d.throwAt; d.throwAt = -1; try { CALL; } catch (...) {} d.clearAll(); d.throwAt = keep; }
     long steps = geti(r, "steps", -1);   // progressive: abandon after this many parseNext calls (-1: run to end)
     try {
         if (api == "sax1" || api == "psax1") {
             CapSAXParser p(0, mm, pool); p.xd = &d; configClassic(p, f, smp);
             Sax1Dump h(d); p.setDocumentHandler(&h); p.setDTDHandler(&h); p.setErrorHandler(&h);
             if (useRes) p.setXMLEntityResolver(&res);
+            XV_PRE(p.parse(presrc))
             if (api == "sax1") p.parse(src);
             else { XMLPScanToken tok; if (p.parseFirst(src, tok)) { long k = 0; while ((steps < 0 || k < steps) && p.parseNext(tok)) k++; if (steps >= 0) p.parseReset(tok); } }
             po.parserErrCount = (long)p.getErrorCount();
@@ -759,6 +765,7 @@ static void runParse(const Req& r, ParseOut& po, XMLGrammarPool* pool = 0, Memor
             CapSAX2 p(mm, pool); p.xd = &d; configSAX2(p, f, smp);
             Sax2Dump h(d); p.setContentHandler(&h); p.setLexicalHandler(&h); p.setDeclarationHandler(&h); p.setDTDHandler(&h); p.setErrorHandler(&h);
             if (useRes) p.setXMLEntityResolver(&res);
+            XV_PRE(p.parse(presrc))
             if (api == "sax2") p.parse(src);
             else { XMLPScanToken tok; if (p.parseFirst(src, tok)) { long k = 0; while ((steps < 0 || k < steps) && p.parseNext(tok)) k++; if (steps >= 0) p.parseReset(tok); } }
             po.parserErrCount = (long)p.getErrorCount();
@@ -767,6 +774,7 @@ static void runParse(const Req& r, ParseOut& po, XMLGrammarPool* pool = 0, Memor
             Sax1Dump eh(d); p.setErrorHandler(&eh);
             if (useRes) p.setXMLEntityResolver(&res);
             bool done = true;
+            XV_PRE(p.parse(presrc))
             if (api == "dom") p.parse(src);
             else { XMLPScanToken tok; if (p.parseFirst(src, tok)) { long k = 0; while ((steps < 0 || k < steps) && p.parseNext(tok)) k++; if (steps >= 0) { p.parseReset(tok); done = false; } } }
             po.parserErrCount = (long)p.getErrorCount();
@@ -786,6 +794,7 @@ static void runParse(const Req& r, ParseOut& po, XMLGrammarPool* pool = 0, Memor
                 nf.atStart = geti(r, "filterstart", 0) != 0;
                 p.setFilter(&nf);
             }
+            XV_PRE({ Wrapper4InputSource pin(&presrc, false); p.parse(&pin); })
             Wrapper4InputSource in(&src, false);
             DOMDocument* dd = p.parse(&in);
             DomDumpOpts o; o.typeInfo = f.b("psvi", false); o.ids = f.b("dumpids", false);
